@@ -5,7 +5,10 @@ import VoluteModel.Lemmas.Group
 /-!
 # C04 - P/N/NPN canonization returns the orbit minimum
 
-Proved for every function of n <= 8 variables (the range the property quantifies over):
+Proved for every function of n <= 8 variables (the range the property quantifies over); the
+N-canonization statements (`n_orbit_min_all`, `n_classes`) hold for every n <= 64, because the
+run-time Gray-flip generator is proved Hamiltonian for every n (`Lemmas/Gray.lean`) instead of
+being evaluated size by size:
  * the three canonizations terminate normally (never `none` = panic), including n = 0, 1;
  * `p_orbit_min`, `n_orbit_min`, `npn_orbit_min`: the representative is the image of f under the
    returned certificate (so it is in the orbit), and it is numerically <= the image of f under
@@ -50,7 +53,7 @@ theorem no_panic (n : Nat) (h8 : n ≤ 8) (f : Array W) (hf : WF n f) :
     · rw [(p_small n (by omega) f).1]; rfl
   have hn : (nCanonization n f).isSome = true := by
     by_cases h1 : 1 ≤ n
-    · obtain ⟨c, mask, h, _⟩ := n_certificate n h1 h8 f hf; rw [h]; rfl
+    · obtain ⟨c, mask, h, _⟩ := n_certificate n h1 (by omega) f hf; rw [h]; rfl
     · have h0 : n = 0 := by omega
       subst h0
       obtain ⟨c, mask, h, _⟩ := n_zero f hf; rw [h]; rfl
@@ -127,11 +130,11 @@ theorem p_orbit_min (n : Nat) (h2 : 2 ≤ n) (h8 : n ≤ 8) (f : Array W) (hf : 
 
 /-- **C04, N**: the representative is <= the image of f under every complementation mask
     (inputs and output), n = 1..8 -/
-theorem n_orbit_min (n : Nat) (h1 : 1 ≤ n) (h8 : n ≤ 8) (f : Array W) (hf : WF n f) :
+theorem n_orbit_min (n : Nat) (h1 : 1 ≤ n) (h64 : n ≤ 64) (f : Array W) (hf : WF n f) :
     ∃ c mask, nCanonization n f = some (c, mask) ∧ WF n c ∧ mask < 2 ^ (n + 1) ∧
       CertRel n f c (Array.range n) mask ∧
       ∀ μ t, μ < 2 ^ (n + 1) → WF n t → CertRel n f t (Array.range n) μ → toNatLE c.toList ≤ toNatLE t.toList := by
-  obtain ⟨fl, hfl', hfl, hcov⟩ := flipsFor_facts n h1 h8
+  obtain ⟨fl, hfl', hfl, hcov⟩ := flipsFor_facts n h1 h64
   obtain ⟨c, mask, h, r⟩ := n_result n f hf h1 fl hfl' hfl
   have hsafe := (n_safe n fl hfl).1
   have hwf : WF n c := by
@@ -139,7 +142,7 @@ theorem n_orbit_min (n : Nat) (h1 : 1 ≤ n) (h8 : n ≤ 8) (f : Array W) (hf : 
     rw [rk.table]; exact stateAt_WF n f hf _ hsafe k
   refine ⟨c, mask, h, hwf, (result_wellformed n f c _ mask _ hsafe r).2, r.rel, ?_⟩
   intro μ t hμ ht hrel
-  obtain ⟨k, _, hk, hmk⟩ := n_cover n fl hfl hcov.distinct hcov.length μ hμ
+  obtain ⟨k, _, hk, hmk⟩ := n_cover n fl hfl hcov.nodup hcov.length μ hμ
   have hc : certAt n (macroN fl) k = (Array.range n, μ) := by
     unfold certAt
     rw [certN n _ fl k hk, hmk]
@@ -154,7 +157,7 @@ theorem npn_orbit_min (n : Nat) (h2 : 2 ≤ n) (h8 : n ≤ 8) (f : Array W) (hf 
       ∀ σ μ t, IsPerm n σ → μ < 2 ^ (n + 1) → WF n t → CertRel n f t σ μ →
         toNatLE c.toList ≤ toNatLE t.toList := by
   obtain ⟨sw, hsw, hs, hcs⟩ := swapsFor_facts n h2 h8
-  obtain ⟨fl, hfl', hfl, hcf⟩ := flipsFor_facts n (by omega) h8
+  obtain ⟨fl, hfl', hfl, hcf⟩ := flipsFor_facts n (by omega) (by omega)
   obtain ⟨c, perm, mask, h, r⟩ := npn_result n f hf h2 sw fl hsw hfl' hs hfl
   have hsafe := (npn_safe n sw fl hs hfl).1
   have hwf : WF n c := by
@@ -164,7 +167,7 @@ theorem npn_orbit_min (n : Nat) (h2 : 2 ≤ n) (h8 : n ≤ 8) (f : Array W) (hf 
   refine ⟨c, perm, mask, h, hwf, w1, w2, r.rel, ?_⟩
   intro σ μ t hσ hμ ht hrel
   exact min_of_cover n f c perm mask _ hf hsafe r σ μ hσ
-    (npn_cover n _ (fact_eq n h8) sw fl hs hfl hcs.distinct hcs.length hcf.distinct hcf.length σ hσ μ hμ) t ht hrel
+    (npn_cover n _ (fact_eq n h8) sw fl hs hfl hcs.distinct hcs.length hcf.nodup hcf.length σ hσ μ hμ) t ht hrel
 
 /-- the minimum is unique: a well-formed table in the orbit that is <= every member of the orbit
     is the representative (two tables of one size with the same value are equal, C08) -/
@@ -240,12 +243,12 @@ theorem n_zero_min (f : Array W) (hf : WF 0 f) :
     · exact hle
 
 /-- N for all n <= 8 -/
-theorem n_orbit_min_all (n : Nat) (h8 : n ≤ 8) (f : Array W) (hf : WF n f) :
+theorem n_orbit_min_all (n : Nat) (h64 : n ≤ 64) (f : Array W) (hf : WF n f) :
     ∃ c mask, nCanonization n f = some (c, mask) ∧ WF n c ∧ mask < 2 ^ (n + 1) ∧
       CertRel n f c (Array.range n) mask ∧
       ∀ μ t, μ < 2 ^ (n + 1) → WF n t → CertRel n f t (Array.range n) μ → toNatLE c.toList ≤ toNatLE t.toList := by
   by_cases h1 : 1 ≤ n
-  · exact n_orbit_min n h1 h8 f hf
+  · exact n_orbit_min n h1 h64 f hf
   · have h0 : n = 0 := by omega
     subst h0
     exact n_zero_min f hf
@@ -259,7 +262,7 @@ theorem npn_orbit_min_all (n : Nat) (h8 : n ≤ 8) (f : Array W) (hf : WF n f) :
   by_cases h2 : 2 ≤ n
   · exact npn_orbit_min n h2 h8 f hf
   · have h1 : n ≤ 1 := by omega
-    obtain ⟨c, mask, h, wc, w2, rel, hmin⟩ := n_orbit_min_all n h8 f hf
+    obtain ⟨c, mask, h, wc, w2, rel, hmin⟩ := n_orbit_min_all n (by omega) f hf
     refine ⟨c, Array.range n, mask, by rw [npn_small n h1 f, h]; rfl, wc, isPerm_range n, w2, rel, ?_⟩
     intro σ μ t hσ hμ ht hrel
     rw [isPerm_small n h1 σ hσ] at hrel
@@ -356,8 +359,8 @@ theorem p_classes (n : Nat) (h8 : n ≤ 8) :
     obtain ⟨p, rfl⟩ := hG
     exact hmin σ t p ht hrel
 
-/-- **C04, N classes** (n = 0..8) -/
-theorem n_classes (n : Nat) (h8 : n ≤ 8) :
+/-- **C04, N classes** (n = 0..64) -/
+theorem n_classes (n : Nat) (h64 : n ≤ 64) :
     (∀ f g, WF n f → WF n g →
       ((∃ σ μ, (σ = Array.range n ∧ μ < 2 ^ (n + 1)) ∧ CertRel n f g σ μ) ↔
         (nCanonization n f).map (·.1) = (nCanonization n g).map (·.1))) ∧
@@ -373,7 +376,7 @@ theorem n_classes (n : Nat) (h8 : n ≤ 8) :
     obtain ⟨rfl, _⟩ := h
     exact ⟨invPerm_id n, invMask_lt n _ μ⟩
   · intro f hf
-    obtain ⟨c, mask, h, wc, w2, rel, hmin⟩ := n_orbit_min_all n h8 f hf
+    obtain ⟨c, mask, h, wc, w2, rel, hmin⟩ := n_orbit_min_all n h64 f hf
     refine ⟨c, Array.range n, mask, by rw [h]; rfl, wc, ⟨rfl, w2⟩, rel, ?_⟩
     intro σ μ t hG ht hrel
     obtain ⟨rfl, hμ⟩ := hG
